@@ -156,14 +156,11 @@ func (x *Ctx) DecodePt(pt *rlwe.Plaintext) (Vec, error) {
 		return nil, fmt.Errorf("LogDimensions.Cols=%d out of range", ls)
 	}
 	n := 1 << ls
-	ecd := x.Ecd
-	if x.Params.RingType() == ring.ConjugateInvariant && ecd.Prec() > 53 {
-		// The arbitrary-precision decoder of the conjugate-invariant ring does not clear the imaginary parts of
-		// its internal buffer (C06 finding "decode/.../stale-imaginary-part", exercised by its own scenario):
-		// a decode depends on what the same Encoder decoded before. A ShallowCopy has fresh zero buffers and
-		// shares the (read-only) roots, so every decode here is a first decode.
-		ecd = ecd.ShallowCopy()
-	}
+	// A ShallowCopy has fresh zero buffers and shares the (read-only) roots: every decode is a first decode,
+	// independent of what this process decoded before (the arbitrary-precision decoder of the conjugate-
+	// invariant ring is known to depend on it: C06 finding "decode/.../stale-imaginary-part", pinned by its own
+	// scenario).
+	ecd := x.Ecd.ShallowCopy()
 	if ecd.Prec() <= 53 {
 		out := make([]complex128, n)
 		if err := ecd.Decode(pt, out); err != nil {
